@@ -6,6 +6,7 @@ import (
 	"encoding/binary"
 	"fmt"
 	"io"
+	"time"
 
 	"github.com/evanoberholster/imagemeta/exif2"
 	"github.com/evanoberholster/imagemeta/jpeg"
@@ -57,6 +58,32 @@ func (e *C10) Run(c *core.Ctx, idx int) {
 	}
 	for i := 0; i < nOther; i++ {
 		segs = append(segs, gen.RandOtherSeg(r, maxLen))
+	}
+	if len(segs) > 0 && r.Chance(1, 5) {
+		// a non-metadata segment at the extremes of the 16-bit length field (0xFFFF, 0xFFFE, ...),
+		// its payload full of marker-like bytes and a complete fake Exif APP1 near both ends
+		i := r.Intn(len(segs))
+		for k := 0; k < len(segs) && !(segs[i].Marker>>4 == 0xE || segs[i].Marker == 0xFE); k++ {
+			i = (i + 1) % len(segs) // only APPn / COM segments have a free length (DRI and SOF are fixed)
+		}
+		L := r.Pick(65533, 65533, 65532, 65531, 65530, 65529)
+		if !(segs[i].Marker>>4 == 0xE || segs[i].Marker == 0xFE) {
+			L = len(segs[i].Payload)
+		}
+		p := segs[i].Payload
+		if len(p) > 40 {
+			p = p[:40]
+		}
+		if len(p) > L {
+			p = p[:L]
+		}
+		fill := gen.HostilePayload(r, L-len(p))
+		fake := append([]byte{0xFF, 0xE1, 0x00, 0x20}, []byte(gen.ExifPrefix+"II*\x00\x08\x00\x00\x00")...)
+		if len(fill) > 200 {
+			copy(fill[1:], fake)
+			copy(fill[len(fill)-60:], fake)
+		}
+		segs[i].Payload = append(p, fill...)
 	}
 	for i := 0; i < nExif; i++ {
 		var t []byte
@@ -278,3 +305,6 @@ func segSummary(segs []gen.Seg) []string {
 	}
 	return out
 }
+
+// CPUBudget: a case is one scan of a stream of at most ~200 KiB; seconds of CPU mean a hang.
+func (e *C10) CPUBudget(tier string, idx int) time.Duration { return 5 * time.Second }
